@@ -483,6 +483,7 @@ CHECKS = {
         "reads/writes on every pipe state (empty, partly filled, full, far side closed) with an idle, slow or never-reading "
         "child, nonblocking (2/3) and blocking (1/3), start-up input sizes {0,1,4096,65535,65536,65537,70000,1M}; waiting is "
         "observed at the libc boundary (virtual-time advance inside read/write, O_NONBLOCK flag of the descriptor); "
+        "an eighth of the cases first make a failing start on the same handle that asks for the other mode; "
         "non-trivial = an I/O call or an input start was checked",
         {"nb_calls": 1500, "blocking_calls": 500, "blocking_waits": 50, "input_starts": 100,
          "input_failed_starts": 20}, assumptions=KERNEL_TRUST),
